@@ -153,6 +153,29 @@ def check_config(rep, prog):
         uses_dims = T.contains(frame, lambda q: q[0] == "field" and q[2] == "Camera.dims")
         ok = from_inter and uses_dims
     req(ok, "P4", "viewport", b_.where(), "Camera::viewport builds its matrix from bounds.intersect(&(0..w, 0..h)) with (w, h) = self.dims")
+    # ... and the dimensions it records are those of the SAME clipped rectangle (the projection's aspect ratio and the
+    # render target extent are derived from them): width from its right/left, height from its bottom/top, nothing else
+    ret = T.strip(sl.local(0), sites=True, refs=True)
+    aggs = [q for q in T.walk(ret) if q[0] == "agg" and q[1].endswith("Camera")]
+    cam = prog.adt("retrofire_core::render::cam::Camera")
+    di = cam["variants"][0]["fields"].index("dims")
+    ok = len(aggs) >= 1
+    for ag in aggs:
+        d = ag[2][di]
+        okd = d[0] == "agg" and d[1] == "tuple" and len(d[2]) == 2
+        if okd:
+            for comp, want in ((d[2][0], {"Rect.right", "Rect.left"}), (d[2][1], {"Rect.bottom", "Rect.top"})):
+                leaves = set()
+                clean = True
+                for q in T.walk(comp):
+                    if q[0] == "param" or q[0] == "upvar":
+                        clean = False
+                for q in T.walk(_cut_intersect(comp, leaves)):
+                    if q[0] in ("param", "upvar", "call") and not (q[0] == "call" and q[1].split(" => ")[0].split("::")[-1] in ("abs_diff", "saturating_sub", "wrapping_sub", "checked_sub", "unwrap_or", "unwrap_or_default", "max", "min")):
+                        okd = False
+                okd = okd and leaves == want
+        ok = ok and okd
+    req(ok, "P4", "viewport-dims", b_.where(), "Camera::viewport records dims = (right - left, bottom - top) of the same intersected rectangle it builds the matrix from")
     cp = [b2 for p, b2 in prog.bodies.items() if p.startswith("retrofire_core::render::cam::Camera::<M>::perspective") and b2.kind == "AssocFn"]
     if cp:
         sl = T.Slicer(cp[0])
@@ -163,6 +186,19 @@ def check_config(rep, prog):
             ok = ar_t[0] == "bin" and ar_t[1] == "Div" and "Camera.dims" in T.fields_in(ar_t[2]) and "Camera.dims" in T.fields_in(ar_t[3]) \
                 and T.fields_in(ar_t[2])[0] == "0" and T.fields_in(ar_t[3])[0] == "1"
         req(ok, "P4", "aspect", cp[0].where(), "Camera::perspective passes aspect = dims.0 / dims.1 of its own frame")
+
+
+def _cut_intersect(t, leaves):
+    """Replace every `(intersect(..).Rect.<side> as Some).0` sub-term by a constant, recording the side."""
+    if not isinstance(t, tuple):
+        return t
+    if t[0] == "field" and t[2] == "Option.0":
+        inner = [q for q in T.walk(t[1]) if q[0] == "field" and q[2].startswith("Rect.")]
+        calls = [q for q in T.walk(t[1]) if q[0] == "call"]
+        if inner and calls and all(c[1].split(" => ")[0].endswith("Rect::<T>::intersect") for c in calls):
+            leaves.add(inner[0][2])
+            return ("const", "side")
+    return tuple(_cut_intersect(x, leaves) if isinstance(x, tuple) else x for x in t)
 
 
 def check(rep, args):
